@@ -7,6 +7,7 @@ import (
 	"go/ast"
 	"go/token"
 	"go/types"
+	"strings"
 )
 
 func init() { registry["C07"] = c07 }
@@ -33,6 +34,7 @@ func c07(c *Ctx) {
 	c19R2(c)
 	c07R7(c)
 	c07R8(c)
+	c07R9(c)
 }
 
 // R6: the pool sync always looks at the surplus. The trimming half of
@@ -824,4 +826,91 @@ func c07R8(c *Ctx) {
 	c.RequireReachedF("C07.R8", "Set.Release: an address the set holds reaches IP.Release", fn, fn.Decl.Body, sites[0].Call, "the set holds the address", func(e *FactEngine) (*Formula, error) {
 		return e.Cond(identFor(info, okFlag)), nil
 	})
+}
+
+// R9: a created interface is not lost to a retry. Factory.CreateNetworkInterface returns the interface
+// together with the error when a later step failed, so that the caller can keep or hand it back. From a
+// call that returned an interface no path leads to another creation (a retry loop, a second attempt)
+// without passing a hand-back (DeleteNetworkInterface), a store of the interface into the caller's state
+// or a return that carries it.
+func c07R9(c *Ctx) {
+	p := c.P
+	c.Rule("C07.R9", "consumers of Factory.CreateNetworkInterface: with an interface returned, no path reaches another CreateNetworkInterface call without handing the interface back, recording it or returning it (a retry never overwrites the only reference to a created interface)")
+	createM := p.Method("pkg/factory", "Factory", "CreateNetworkInterface")
+	delM := p.Method("pkg/factory", "Factory", "DeleteNetworkInterface")
+	if createM == nil || delM == nil {
+		c.Unres("C07.R9", "Factory.CreateNetworkInterface / DeleteNetworkInterface", "not found")
+		return
+	}
+	n := 0
+	for _, cs := range p.CallsTo(nil, createM) {
+		fn := cs.Fn
+		if strings.HasPrefix(fn.Pkg.PkgPath, modPath+"/pkg/factory") {
+			continue // the factories themselves
+		}
+		info := fn.Info()
+		as, lhs := assignedFromCall(fn, cs.Call)
+		if as == nil || len(lhs) == 0 || lhs[0] == nil {
+			continue
+		}
+		n++
+		eniVar := lhs[0]
+		mentions := func(k ast.Node) bool {
+			hit := false
+			ast.Inspect(k, func(j ast.Node) bool {
+				if id, ok := j.(*ast.Ident); ok && info.ObjectOf(id) == eniVar {
+					hit = true
+				}
+				return !hit
+			})
+			return hit
+		}
+		isCreate := func(k ast.Node) bool {
+			hit := false
+			ast.Inspect(k, func(j ast.Node) bool {
+				if call, ok := j.(*ast.CallExpr); ok && Callee(info, call) == createM {
+					hit = true
+				}
+				return !hit
+			})
+			return hit
+		}
+		kept := func(k ast.Node) bool {
+			switch t := k.(type) {
+			case *ast.ReturnStmt:
+				return mentions(t)
+			case *ast.AssignStmt:
+				if ast.Node(t) == ast.Node(as) {
+					return false
+				}
+				for i, l := range t.Lhs {
+					switch ast.Unparen(l).(type) {
+					case *ast.SelectorExpr, *ast.IndexExpr:
+						if i < len(t.Rhs) && mentions(t.Rhs[i]) {
+							return true
+						}
+					}
+				}
+			case *ast.ExprStmt:
+				if call, ok := t.X.(*ast.CallExpr); ok && Callee(info, call) == delM && mentions(call) {
+					return true
+				}
+			}
+			// a hand-back whose error is bound or ignored: _ = f.DeleteNetworkInterface(x.ID)
+			hit := false
+			ast.Inspect(k, func(j ast.Node) bool {
+				if call, ok := j.(*ast.CallExpr); ok && Callee(info, call) == delM && mentions(call) {
+					hit = true
+				}
+				return !hit
+			})
+			return hit
+		}
+		q := NewPathQuery(p, fn, innermostBody(fn, cs.Call))
+		q.TrackNils = []types.Object{eniVar}
+		q.StartNil = map[types.Object]int{eniVar: nilNo}
+		w := q.Escapes(isExactly(as), func(k ast.Node) bool { return isCreate(k) }, kept, nil)
+		c.Check(w == nil, "C07.R9", fn.Key()+": a returned interface is kept or handed back before the next creation", p.Pos(cs.Call), fn.Key(), "must-pass: record / DeleteNetworkInterface / return between two creations", "path: "+p.describePath(w))
+	}
+	c.Floor("C07.R9", "consumers of CreateNetworkInterface", 2, n)
 }
